@@ -1,7 +1,7 @@
-(* C07 - source text denotes one tree: precedence, associativity, layout-independence. Property theorems only (printer and the boolean image of the parser in spec/Printer.v; proofs in proofs/PrinterProofs.v, PrinterFinal.v). For EVERY tree in the parser's image, parsing its printed form (minimal parentheses computed from the regenerated precedence table) gives back exactly that tree, with the fuel the model really uses. *)
+(* C07 - source text denotes one tree: precedence, associativity, layout-independence. Property theorems only; layout-independence in spec/Layout.v, proofs/LayoutProofs.v, proofs/TextRoundTrip.v (printer and the boolean image of the parser in spec/Printer.v; proofs in proofs/PrinterProofs.v, PrinterFinal.v). For EVERY tree in the parser's image, parsing its printed form (minimal parentheses computed from the regenerated precedence table) gives back exactly that tree, with the fuel the model really uses. *)
 From NL.Model Require Import Parser.
-From NL.Spec Require Import Printer.
-From NL.Proofs Require PrinterProofs PrinterFinal.
+From NL.Spec Require Import Printer RenderSpec Layout.
+From NL.Proofs Require PrinterProofs PrinterFinal LayoutProofs TextRoundTrip.
 
 
 (* THE property: parse (print t) = t for every well-formed tree, every float oracle that reads back what the printer writes *)
@@ -41,12 +41,40 @@ Theorem op_assign_desugars : forall (pf : text -> option float) (show_f : float 
 Proof. exact PrinterProofs.op_assign_desugars. Qed.
 
 (* string literals: decoding the quoted form gives back the text *)
-Theorem decode_quote : forall s : text, decode_string (quote s) = s.
+Theorem decode_quote : forall s : text, decode_string (Printer.quote s) = s.
 Proof. exact PrinterProofs.decode_quote. Qed.
 
 (* integer literals keep their value *)
 Theorem parse_digits_show_N : forall n : N, parse_digits (show_N n) 0 = Some n.
 Proof. exact PrinterProofs.parse_digits_show_N. Qed.
+
+(* LAYOUT-INDEPENDENCE at token level: for EVERY layout oracle - any number of redundant parentheses around any expression, every optional ; and , omitted wherever not required, trailing separators, `anders als` chains where harmless - parsing gives back the same tree *)
+Theorem parse_tokens_print_lay : forall (pf : text -> option float) (show_f : float -> text) (lay : layout) (b : block), wf_tree b = true -> (forall x : float, pf (show_f x) = Some x) -> parse_tokens pf (print_program_lay show_f lay b) = Ok b.
+Proof. exact LayoutProofs.parse_tokens_print_lay. Qed.
+
+(* the layout printer with the default layout is the minimal printer (so the above strictly generalises parse_tokens_print) *)
+Theorem print_program_lay_plain : forall (show_f : float -> text) (b : block), print_program_lay show_f plain b = print_program show_f b.
+Proof. exact LayoutProofs.print_program_lay_plain. Qed.
+
+(* which separators are required: exactly before a statement/item starting with ( [ or - *)
+Theorem continues_stmt_start : forall t : token, LayoutProofs.stmt_start t = true -> continues t = true <-> t = TFix KOpenParen \/ t = TFix KOpenBracket \/ t = TFix KMinus.
+Proof. exact LayoutProofs.continues_stmt_start. Qed.
+
+(* `anders als` chains nest to the right and denote the same tree as `anders { als ... }` *)
+Theorem else_if_chain : forall (pf : text -> option float) (show_f : float -> text) (fok : float -> bool), (forall x : float, fok x = true -> pf (show_f x) = Some x) -> forall (c : expr) (t : list stmt) (e2 : expr) (semi : bool) (rest : list token), wf_expr fok (EIf c t (Some [SExpr e2])) = true -> is_if e2 = true -> LayoutProofs.boundary rest -> continues (cur rest) = false -> let tree := SExpr (EIf c t (Some [SExpr e2])) in exists n : nat, forall fuel : nat, (n <= fuel)%nat -> parse_statement pf fuel (TFix KIf :: print_expr show_f PLowest PLowest c ++ print_block show_f t ++ TFix KElse :: print_expr show_f PLowest PLowest e2 ++ (if semi then [TFix KSemi] else []) ++ rest) = Ok (tree, rest) /\ parse_statement pf fuel (print_stmt show_f tree ++ rest) = Ok (tree, rest).
+Proof. exact LayoutProofs.else_if_chain. Qed.
+
+(* TEXT level: parse (text of the printed tree) = tree, through the real lexer model, for printable trees *)
+Theorem parse_render_spaces : forall (u : unicode) (pf : text -> option float) (show_f : float -> text) (b : block), wf_tree b = true -> tree_printable u show_f b = true -> (forall x : float, pf (show_f x) = Some x) -> parse u pf (render_spaces (print_program show_f b)) = Ok b.
+Proof. exact TextRoundTrip.parse_render_spaces. Qed.
+
+(* TEXT level, every layout and every admissible separator choice (all white-space forms, comments, nothing where tokens do not fuse): white space, comments, redundant parentheses and optional separators never change the tree *)
+Theorem parse_render_print_lay : forall (u : unicode) (pf : text -> option float) (show_f : float -> text) (lay : layout) (b : block) (items : list (text * token)) (trail : text), wf_tree b = true -> (forall x : float, pf (show_f x) = Some x) -> map snd items = print_program_lay show_f lay b -> admissible u None items -> trailgap u trail -> trail_admissible (last_tok None items) trail -> parse u pf (render items trail) = Ok b.
+Proof. exact TextRoundTrip.parse_render_print_lay. Qed.
+
+(* two layouts of one tree parse to the same tree *)
+Theorem layout_irrelevant : forall (u : unicode) (pf : text -> option float) (show_f : float -> text) (lay1 lay2 : layout) (b : block), wf_tree b = true -> tree_printable u show_f b = true -> (forall x : float, pf (show_f x) = Some x) -> parse u pf (render_spaces (print_program_lay show_f lay1 b)) = parse u pf (render_spaces (print_program_lay show_f lay2 b)).
+Proof. exact TextRoundTrip.layout_irrelevant. Qed.
 
 
 Print Assumptions parse_tokens_print.
@@ -60,3 +88,10 @@ Print Assumptions prefix_quirk.
 Print Assumptions op_assign_desugars.
 Print Assumptions decode_quote.
 Print Assumptions parse_digits_show_N.
+Print Assumptions parse_tokens_print_lay.
+Print Assumptions print_program_lay_plain.
+Print Assumptions continues_stmt_start.
+Print Assumptions else_if_chain.
+Print Assumptions parse_render_spaces.
+Print Assumptions parse_render_print_lay.
+Print Assumptions layout_irrelevant.
